@@ -81,6 +81,11 @@ theorem no_import (b : Ctx) (hi : b.cfg.importCustomExc = false) (fuel : Nat) (b
   have := List.all_eq_true.mp (reachable_inv b fuel bursts).good _ ht
   refine ⟨?_, fun hj => ?_⟩ <;> intro hk <;> simp_all [Ev.good, Touch.good]
 
+/-- obligation on the interpreter: `hash(slice(...))` works (CPython >= 3.12; measured by the generator on the interpreter
+the checks run under), so EVERY decoded value is hashable and looking an arbitrary peer-sent identifier up in the table
+(`tableGet`, `decref`) fails with `KeyError`, never `TypeError`, as the model has it -/
+theorem interpreter_hashes_slices : Gen.sliceHashable = true := by decide
+
 /-- (3)+(4) for the generated default configuration -/
 theorem default_gates_closed :
     defaultConfig.allowPickle = false ∧ defaultConfig.importCustomExc = false ∧ defaultConfig.instantiateCustomExc = false := by
@@ -127,6 +132,34 @@ theorem local_ref_only_lent (b : Ctx) (fuel : Nat) (bursts : List (List Wire)) (
     rw [pyEqNat_int]; decide
   simp [unbox, resolve, unbox2, unpack2, iterVal, Handlers.liftE, Bind.bind, Pure.pure, e2, e3, tableGet, h]
 
+/-- (2) **only lent objects are nameable, at any tuple depth**: whatever package arrives, if its first pass
+(`_resolve_local_refs`) succeeds in a reachable state, then every object of the resolved package is the object of an
+entry of THIS connection's table, and that entry was put there by `_box` under that very identifier (`lent` event) -/
+theorem nested_local_refs_only_lent (b : Ctx) (fuel : Nat) (bursts : List (List Wire)) (c : Ctx) (fut : List Wire)
+    (f : Nat) (pkg : Val) (p : Pkg) (h : (resolve f pkg c (run b fuel {} bursts) fut).r = .ok p) :
+    ∀ o ∈ p.objs, ∃ s ∈ (run b fuel {} bursts).table, s.o = o ∧ Ev.lent s.key o ∈ (run b fuel {} bursts).log := by
+  intro o ho
+  obtain ⟨s, hs, e⟩ := (resolve_table c _ f pkg fut).2.2 p h o ho
+  exact ⟨s, hs, e, e ▸ (reachable_inv b fuel bursts).lent s hs⟩
+
+/-- (2) the same for `_unbox` as a whole: every local object in the value `_unbox` builds from ANY package, at any
+depth, is a lent table object — the second pass adds proxies for the peer's own objects and nothing else -/
+theorem unbox_only_lent (b : Ctx) (fuel : Nat) (bursts : List (List Wire)) (c : Ctx) (fut : List Wire)
+    (f : Nat) (pkg : Val) (v : PV) (h : (unbox f pkg c (run b fuel {} bursts) fut).r = .ok v) :
+    ∀ o ∈ v.objs, ∃ s ∈ (run b fuel {} bursts).table, s.o = o ∧ Ev.lent s.key o ∈ (run b fuel {} bursts).log := by
+  intro o ho
+  simp only [unbox, Bind.bind] at h
+  have hq := resolve_table c (run b fuel {} bursts) f pkg fut
+  cases hm : resolve f pkg c (run b fuel {} bursts) fut with
+  | mk r st1 fut1 =>
+    rw [hm] at h hq
+    cases r with
+    | error x => cases h
+    | ok p =>
+      have ho' := unbox2_objs c f p st1 fut1 v h o ho
+      obtain ⟨s, hs, e⟩ := hq.2.2 p rfl o ho'
+      exact ⟨s, hs, e, e ▸ (reachable_inv b fuel bursts).lent s hs⟩
+
 /-- (2) whatever was lent had been handed to the protocol code by the environment (a result of a performed operation,
 an argument the service chose to send) or is the root: `lent ⊆ known`, and only `lent` is nameable by the peer -/
 theorem lent_known (b : Ctx) (fuel : Nat) (bursts : List (List Wire)) (k : Val) (o : Nat)
@@ -147,7 +180,7 @@ theorem local_ref_only_table (c : Ctx) (st : St) (fut : List Wire) (f : Nat) (ke
     rw [pyEqNat_int]; decide
   constructor
   · intro h
-    simp [unbox, resolve, unbox2, unpack2, iterVal, Handlers.liftE, Bind.bind, Pure.pure, e2, e3, tableGet, h]
+    simp [unbox, resolve, unpack2, iterVal, Handlers.liftE, Bind.bind, Pure.pure, e2, e3, tableGet, h]
   · intro s h
     simp [unbox, resolve, unbox2, unpack2, iterVal, Handlers.liftE, Bind.bind, Pure.pure, e2, e3, tableGet, h]
 
